@@ -571,8 +571,14 @@ class DomainLowerer(FragmentTransformer, ValueTransformer, StatementTransformer)
         return domain.rst
 
     def on_fragment(self, fragment):
+        # Subfragments are lowered recursively by the same object: restore this fragment's domains
+        # afterwards, so that its own statements are not resolved against those of its last child.
+        domains = self.domains
         self.domains = fragment.domains
-        return super().on_fragment(fragment)
+        try:
+            return super().on_fragment(fragment)
+        finally:
+            self.domains = domains
 
 
 class LHSMaskCollector:
